@@ -298,6 +298,9 @@ var c17Apply = hx.Define("c17.apply", func(c *c17Case, s *hx.Sub) *hx.Violation 
 	plain := !strings.ContainsAny(o.Out, "eE")
 	if last.within != nil {
 		gr := new(big.Rat).SetFloat64(got)
+		if bi, ok := new(big.Int).SetString(strings.TrimSpace(o.Out), 10); ok {
+			gr.SetInt(bi) // a printed integer is read exactly (float64 would round it beyond 2^53)
+		}
 		d := new(big.Rat).Sub(gr, last.within)
 		if !gr.IsInt() || d.Abs(d).Cmp(big.NewRat(1, 1)) >= 0 || strings.Contains(o.Out, ".") {
 			return hx.V("value:"+sigName, "%s with a=%v b=%v printed %q; integer division must give an integer within 1 of %s", src, c.A, c.B, o.Out, last.within.FloatString(4))
